@@ -39,7 +39,7 @@ Value& CEILExpression::value(Context & ctx) const
     break;
   case Type::INTEGER:
     if (val.isNull())
-      return val;
+      break;
     v = Value(Numeric(std::ceil(*val.integer())));
     break;
   case Type::NUMERIC:
